@@ -171,7 +171,7 @@ func (e *Exec) catchUp() {
 			panic(abortRun{})
 		}
 		j := e.checkStore("catch-up")
-		if j == e.hist.N() {
+		if e.storeHasAll {
 			e.drained = true
 			e.probe("caught-up")
 			break
